@@ -133,6 +133,15 @@ def streams(rng, tier, ctx):
         c = int(it.op("crc " + (body_hex or "-")))
         return (body_hex if body_hex != "-" else "") + "%08x" % c
     try:
+        # boundary strings, every run: all-zero / all-one strings of 0..9 bytes, and the CRC-valid strings with a body of 0..4
+        # arbitrary bytes (a body of 0 bytes: the four CRC bytes of the empty string alone)
+        k = 0
+        for L in range(10):
+            for fill in ("00", "ff"):
+                cases.append(("bnd%d" % k, ["dec " + ((fill * L) or "-")])); expect["bnd%d" % k] = ("noise", None); k += 1
+        for L in range(5):
+            for _ in range(2):
+                cases.append(("bnd%d" % k, ["dec " + with_crc(r.bytes(L).hex() or "-")])); expect["bnd%d" % k] = ("noisecrc", None); k += 1
         for i in range(n_dec):
             cid = "dec%d" % i
             how = r.weighted([("noise", 2), ("noisecrc", 2), ("trunc", 3), ("ext", 3), ("mut", 6), ("valid", 2)])
